@@ -312,6 +312,8 @@ def cmd_check(pid, tier, seed, jobs):
             samples.append((r.params, s))
         if not r.exhausted:
             problems.append(f"instance {r.params} not exhausted within budget")
+        if r.stats.paths > 0 and not (r.status_counts.get("ok", 0) + r.status_counts.get("violation", 0)):
+            problems.append(f"instance {r.params} is vacuous: no path ran to completion ({r.status_counts})")
         for st_, d in r.problems:
             problems.append(f"{st_}: {str(d)[-1500:]}")
     for lr in lemma_results:
@@ -456,8 +458,9 @@ def cmd_check(pid, tier, seed, jobs):
         "violations": confirmed,
         "exit_code": exit_code,
     }
-    os.makedirs(os.path.join(HERE, "evidence"), exist_ok=True)
-    with open(os.path.join(HERE, "evidence", f"{pid}.json"), "w") as f:
+    evdir = os.environ.get("VERIF_EVIDENCE_DIR") or os.path.join(HERE, "evidence")   # scratch runs (seeded changes) write elsewhere
+    os.makedirs(evdir, exist_ok=True)
+    with open(os.path.join(evdir, f"{pid}.json"), "w") as f:
         json.dump(ev, f, indent=1, default=repr)
 
     for ln in out_lines:
